@@ -301,12 +301,26 @@ func (e *handlerStore[T]) onSubEvent(handler T) {
 
 func (e *handlerStore[T]) offSubEvent(handler T) {
 	e.mu.Lock()
-	for i, sub := range e.subs {
-		if sub == handler {
-			e.subs = append(e.subs[:i], e.subs[i+1:]...)
-		}
-	}
+	e.subs = removeHandlers(e.subs, handler)
 	e.mu.Unlock()
+}
+
+// Returns a new slice without the handlers to be removed.
+//
+// A new slice is built instead of removing in place while iterating,
+// which skips elements, removes wrong ones or runs out of bounds.
+func removeHandlers[T comparable](handlers []T, remove ...T) []T {
+	kept := make([]T, 0, len(handlers))
+outer:
+	for _, h := range handlers {
+		for _, r := range remove {
+			if h == r {
+				continue outer
+			}
+		}
+		kept = append(kept, h)
+	}
+	return kept
 }
 
 func (e *handlerStore[T]) offSubEvents() {
@@ -331,25 +345,8 @@ func (e *handlerStore[T]) off(handler ...T) {
 		return
 	}
 
-	remove := func(slice []T, s int) []T {
-		return append(slice[:s], slice[s+1:]...)
-	}
-
-	for i, h := range e.funcs {
-		for _, _h := range handler {
-			if h == _h {
-				e.funcs = remove(e.funcs, i)
-			}
-		}
-	}
-
-	for i, h := range e.funcsOnce {
-		for _, _h := range handler {
-			if h == _h {
-				e.funcsOnce = remove(e.funcsOnce, i)
-			}
-		}
-	}
+	e.funcs = removeHandlers(e.funcs, handler...)
+	e.funcsOnce = removeHandlers(e.funcsOnce, handler...)
 }
 
 func (e *handlerStore[T]) offAll() {
@@ -415,21 +412,26 @@ func (e *eventHandlerStore) off(eventName string, handler ...reflect.Value) {
 		return
 	}
 
-	remove := func(slice []*eventHandler, s int) []*eventHandler {
-		return append(slice[:s], slice[s+1:]...)
+	// A new slice is built instead of removing in place while iterating,
+	// which skips elements, removes wrong ones or runs out of bounds.
+	remove := func(events []*eventHandler) []*eventHandler {
+		kept := make([]*eventHandler, 0, len(events))
+	outer:
+		for _, event := range events {
+			ep := event.rv.Pointer()
+			for _, h := range handler {
+				if ep == h.Pointer() {
+					continue outer
+				}
+			}
+			kept = append(kept, event)
+		}
+		return kept
 	}
 
 	events, ok := e.events[eventName]
 	if ok {
-		for i, event := range events {
-			for _, h := range handler {
-				ep := event.rv.Pointer()
-				hp := h.Pointer()
-				if ep == hp {
-					events = remove(events, i)
-				}
-			}
-		}
+		events = remove(events)
 		if len(events) == 0 {
 			delete(e.events, eventName)
 		} else {
@@ -439,15 +441,7 @@ func (e *eventHandlerStore) off(eventName string, handler ...reflect.Value) {
 
 	eventsOnce, ok := e.eventsOnce[eventName]
 	if ok {
-		for i, event := range eventsOnce {
-			for _, h := range handler {
-				ep := event.rv.Pointer()
-				hp := h.Pointer()
-				if ep == hp {
-					eventsOnce = remove(eventsOnce, i)
-				}
-			}
-		}
+		eventsOnce = remove(eventsOnce)
 		if len(eventsOnce) == 0 {
 			delete(e.eventsOnce, eventName)
 		} else {
